@@ -168,7 +168,7 @@ def run(repo, chk):
         runs = []
         for _ in range(2):
             g = new_codegen(CGi)
-            g.numbered_labels = {}
+            pass        # book-keeping tables come from the dataclass field factories (new_codegen)
             runs.append([g.add_label(p).label_name for p in ('x', 'loop', 'x', 'x', 'loop', 'y')])
         ok = runs[0] == runs[1] == ['x_0', 'loop_0', 'x_1', 'x_2', 'loop_1', 'y_0']
         detail = f'{runs[0]}'
@@ -183,6 +183,26 @@ def run(repo, chk):
         for n in ast.walk(fn):
             if isinstance(n, ast.Attribute) and src(n) == 'self.stack_size' and isinstance(n.ctx, ast.Load):
                 reads.append((fname, n))
+    # gen_lines and helpers split off from it (new functions called only from it): interpreted with two stack sizes, the
+    # outputs must differ in exactly one line - the size of the zero-filled stack region
+    from ..canon import roles as _roles
+    writers_of_output = {'gen_lines'}
+    grew = True
+    while grew:
+        grew = False
+        for cand in gf.methods:
+            if cand in writers_of_output or f'{GEN}::CodeGen.{cand}' in _roles():
+                continue
+            callers = {fn_ for fn_, f_ in gf.methods.items() for x in ast.walk(f_)
+                       if isinstance(x, ast.Attribute) and x.attr == cand and src(x.value) == 'self' and fn_ != cand}
+            if callers and callers <= writers_of_output:
+                writers_of_output.add(cand)
+                grew = True
+    la, lb = gf.layout(stack_size=7), gf.layout(stack_size=9)
+    diff = [(x, y) for x, y in zip(la, lb) if x != y]
+    layout_ok = len(la) == len(lb) and diff == [(b'.zero 7w', b'.zero 9w')]
+    chk.expect(layout_ok, 'C18.D2', 'gen_lines::stack_size reaches only the size of the stack region',
+               f'outputs for stack sizes 7 and 9 differ in {diff[:3]}', GEN)
     ok_sites = 0
     for fname, n in reads:
         p = parent(n)
@@ -191,8 +211,8 @@ def run(repo, chk):
             stmt = parent(stmt)
         if fname == '__post_init__':
             ok = isinstance(stmt, ast.If) and all(isinstance(s, ast.Raise) for s in stmt.body) and not stmt.orelse
-        elif fname == 'gen_lines':
-            ok = src(stmt) == 'yield from asm.ZeroDirective(asm.WordOffset(self.stack_size)).lines()'
+        elif fname in writers_of_output:
+            ok = layout_ok          # what the output does with it is decided by interpreting gen_lines (below)
         else:
             ok = False
         ok_sites += ok
@@ -250,9 +270,7 @@ def run(repo, chk):
     from . import c04
     c04._scale(repo, Remap(chk, {'C04.A4': 'C18.D4'}), gf)
     # reserve functions
-    for fname, want in (('reserve_word', 'prev.add(offset=self.word_size)'), ('reserve_byte', 'prev.add(offset=1)')):
-        t = src(gf.methods[fname])
-        chk.expect(f'cur = {want}' in t, 'C18.D4', f'{fname}::growth', f'expected cur = {want}', GEN)
+    c04._reserve_slots(repo, Remap(chk, {'C04.A1': 'C18.D4'}), gf)      # slot sizes come from word_size (interpreted at 4 word sizes)
     chk.expect(b'%format word 2' in gf.layout(), 'C18.D4', 'gen_lines::%format word', 'the word size is declared from the parameter '
                '(interpreted with word_size = 2)', GEN)
     # integer constants equal to a possible word size must not be used as sizes in the generator: look at emitted IntLiteral args
